@@ -110,6 +110,26 @@ func runCase(idx int, in *caseInput) *caseResult {
 		res.internal = err.Error()
 		return res
 	}
+	// the linter compares the two committed versions: what the checkout looks like afterwards
+	// (an uncommitted undo of the last commit, files deleted, files with garbage in them) must
+	// not change anything
+	switch idx % 8 {
+	case 3:
+		if err := dirtyTree(dir, oldFiles, newFiles, ""); err != nil {
+			res.internal = err.Error()
+			return res
+		}
+	case 5:
+		if err := dirtyTree(dir, nil, newFiles, ""); err != nil {
+			res.internal = err.Error()
+			return res
+		}
+	case 7:
+		if err := dirtyTree(dir, newFiles, newFiles, "\nstruct {{{ not thrift\n"); err != nil {
+			res.internal = err.Error()
+			return res
+		}
+	}
 	var err error
 	if res.bin, err = runBinary(binPath, dir, nil, false); err != nil {
 		res.internal = err.Error()
@@ -372,7 +392,7 @@ func main() {
 		os.Exit(3)
 	}
 	rep := report.New(*prop)
-	rep.Rule = "case = (base program of 1-5 Thrift files with cross-file references, some in sub-directories) + edit script of 0-6 edits drawn from the breaking / required-with-default / additive / structural / neutral kinds (histogram edit_kind), committed as HEAD~ and HEAD; non-trivial = go-git reports at least one changed .thrift file; distinct = distinct (old, new) file contents"
+	rep.Rule = "case = (base program of 1-5 Thrift files with cross-file references, some in sub-directories) + edit script of 0-6 edits drawn from the breaking / required-with-default / additive / structural / neutral kinds (histogram edit_kind), committed as HEAD~ and HEAD; in three cases of eight the checkout is then changed without committing (the last commit undone, every Thrift file deleted, garbage appended to every Thrift file); non-trivial = go-git reports at least one changed .thrift file; distinct = distinct (old, new) file contents"
 	fail := func(err error) {
 		fmt.Fprintln(os.Stderr, "breakcheck:", err)
 		os.Exit(3)
